@@ -299,6 +299,21 @@ def h5file(tag):
     return h5py.File("c13_%s_%d.h5" % (tag, os.getpid()), "w", driver="core", backing_store=False)
 
 
+def noisy_crystal(name, rng, noise=2e-4, threshold=1e-3):
+    """the named crystal with positions perturbed by ~noise, built with a symmetry threshold that still finds the full group;
+    None if that fails (then the default threshold must NOT find it, otherwise the case is pointless)"""
+    from onsager import crystal
+    c = gen.named(name)[0]
+    basis = [[u + np.array([rng.uniform(-noise, noise) for _ in range(c.dim)]) for u in ul] for ul in c.basis]
+    try:
+        cn = crystal.Crystal(c.lattice, basis, threshold=threshold)
+        c8 = crystal.Crystal(c.lattice, basis)
+    except Exception:
+        return None
+    if len(cn.G) != len(c.G) or len(c8.G) >= len(cn.G): return None
+    return cn
+
+
 def calculators(ck, rng):
     """(label, crys, chem, sitelist, jumpnetwork, Nthermo)"""
     names = ["square", "honeycomb", "sq2w", "tria", "rect-polar2d", "rect", "sc", "b2"] if ck.quick else \
@@ -317,6 +332,12 @@ def calculators(ck, rng):
         if net is None: continue
         for N in ((1, 2) if crys.dim == 2 else (1,)):
             out.append((nm, crys, chem, net[1], net[2], N))
+    # noisy atom positions with a NON-DEFAULT symmetry threshold (the full group is found only with that threshold)
+    for nm in (["honeycomb"] if ck.quick else ["honeycomb", "hcp"]):
+        c0 = noisy_crystal(nm, rng)
+        if c0 is None: continue
+        net = gen.percolating_network(c0, 0, rng, maxshell=1)
+        if net is not None: out.append((nm + "-noisy-thr1e-3", c0, 0, net[1], net[2], 1))
     nrand = ck.n(2, 8)
     tries = 0
     while nrand > 0 and tries < 60:
@@ -353,10 +374,16 @@ def evaluator(ck, rng, V):
         except Exception as e:
             skipped["construct-failed"] += 1; continue
         nr = ck.nprng(1000 + ci)
-        inputs = [random_thermo(d, nr) for _ in range(ck.n(3, 6))]
+        inputs = [random_thermo(d, nr) for _ in range(ck.n(4, 6))]
+        import copy as _copy
+        pristine = _copy.deepcopy(d)      # never used: the reference "fresh calculator"
+        # the cache is filled with all but the last input, in DESCENDING lexicographic order of the keys (so that a writer
+        # that reorders keys but not values, or vice versa, cannot go unnoticed); the last input stays uncached (miss path)
+        cached_inputs = sorted(inputs[:-1], key=lambda a: tuple(np.hstack([np.ones_like(a[0]), a[0], np.ones_like(a[3]), a[3]]).tolist()), reverse=True)
         for stage in ("before-cache", "after-cache"):
             if stage == "after-cache":
-                for a in inputs[:2]: d.Lij(*a)
+                d.clearcache()
+                for a in cached_inputs: d.Lij(*[x.copy() for x in a])
             f = h5file("%d%s" % (ci, stage[0]))
             try:
                 try:
@@ -398,7 +425,8 @@ def evaluator(ck, rng, V):
                     elif isinstance(x, stars.VectorStarSet):
                         for fld in VSS_FIELDS: deep_diff(getattr(x, fld), getattr(y, fld), "%s.%s" % (attr, fld), out)
                     elif isinstance(x, crystal.Crystal):
-                        deep_diff([x.lattice, x.basis, list(x.chemistry), x.N, x.dim], [y.lattice, y.basis, list(y.chemistry), y.N, y.dim], attr, out)
+                        deep_diff([x.lattice, x.basis, list(x.chemistry), x.N, x.dim, float(x.threshold), len(x.G), x.Wyckoff],
+                                  [y.lattice, y.basis, list(y.chemistry), y.N, y.dim, float(y.threshold), len(y.G), y.Wyckoff], attr, out)
                         if x.G != y.G: out.append(attr + ".G")
                     elif isinstance(x, GFcalc.GFCrystalcalc):
                         for fld in rs_gf:
@@ -408,8 +436,14 @@ def evaluator(ck, rng, V):
                                 continue
                             deep_diff(getattr(x, fld), getattr(y, fld), "%s.%s" % (attr, fld), out)
                     elif attr in ("GFvalues", "Lvvvalues", "etavvalues"):
-                        deep_diff([(tuple(np.asarray(z).tolist() for z in k), v) for k, v in x.items()],
-                                  [(tuple(np.asarray(z).tolist() for z in k), v) for k, v in y.items()], attr, out)
+                        # every cached entry, key by key (looked up by key CONTENT, whatever the stored order)
+                        if len(x) != len(y): out.append("%s: %d entries saved, %d reloaded" % (attr, len(x), len(y)))
+                        ymap = {tuple(np.hstack(k).tolist()): v for k, v in y.items()}
+                        for ki, (k, v) in enumerate(x.items()):
+                            v2 = ymap.get(tuple(np.hstack(k).tolist()))
+                            if v2 is None: out.append("%s: key %d missing after reload" % (attr, ki))
+                            elif not np.array_equal(np.asarray(v), np.asarray(v2)): out.append("%s: value of key %d (betaeneT=%s) differs after reload" % (attr, ki, np.asarray(k.betaeneT).tolist()))
+                        if [tuple(np.hstack(k).tolist()) for k in x] != [tuple(np.hstack(k).tolist()) for k in y]: out.append(attr + ": key order changed")
                     else:
                         deep_diff(x, y, attr, out)
                 ck.case(key=("vm", nm, N, stage), nontrivial=True, kind="vm:%dD-%s-N%d-%s" % (crys.dim, nm.split("-")[0], N, stage),
@@ -425,6 +459,14 @@ def evaluator(ck, rng, V):
                         V("Lij of the reloaded (or original) calculator raises %r" % (e,), {**base, "stage": stage, "input": [x.tolist() for x in a]}, key="c13-vm-lij-exception")
                         break
                     dd = max(float(np.abs(np.asarray(x) - np.asarray(y)).max()) for x, y in zip(r0, r1))
+                    # ... and against a calculator that has never cached or been saved
+                    rf = _copy.deepcopy(pristine).Lij(*[x.copy() for x in a])
+                    df = max(float(np.abs(np.asarray(x) - np.asarray(y)).max()) for x, y in zip(r1, rf))
+                    if df > 1e-12:
+                        V("Lij of the reloaded calculator at a%s input differs from a fresh calculator (max |diff| %.3g; %d cache entries were saved)"
+                          % (" cached" if any(a is b for b in cached_inputs) and stage == "after-cache" else "n uncached", df, len(d.GFvalues)),
+                          {**base, "stage": stage, "input": [x.tolist() for x in a], "reloaded": [np.asarray(x).tolist() for x in r1],
+                           "fresh": [np.asarray(x).tolist() for x in rf], "cache_keys_betaeneT": [np.asarray(k.betaeneT).tolist() for k in d.GFvalues]}, key="c13-vm-lij-vs-fresh")
                     maxdiff = max(maxdiff, dd)
                     ck.case(key=("vm-lij", nm, N, stage, ai), nontrivial=True, kind="lij:" + stage)
                     if dd != 0.0:
@@ -652,6 +694,30 @@ def yaml_corpus(ck, rng, V):
                 elif bad: V("YAML round trip of a Crystal(%s) is not equal: %s" % (", ".join("%s=%s" % (k, type(v2).__name__ if v2 is not None and not isinstance(v2, (bool, float)) else v2) for k, v2 in kw.items()), bad[:4]),
                           {"lattice": latt.tolist(), "basis": [[u.tolist() for u in b] for b in basis], "kwargs": str(kw), "diff": bad}, key="c13-yaml-crystal")
     ck.extra.setdefault("skipped", {})["crystal-kwargs-construct-failed"] = nfail
+    # ---- noisy crystals with non-default thresholds: yaml.dump/load and simpleYAML/fromdict must keep threshold, group, Wyckoff sets
+    nnoisy = 0
+    for nm in (["honeycomb", "hcp"] if ck.quick else ["honeycomb", "hcp", "b2", "square", "fcc", "diamond", "sq2w", "hcp-oct-tet"]):
+        for thr in (1e-3, 5e-4):
+            c0 = noisy_crystal(nm, rng, noise=thr / 5, threshold=thr)
+            if c0 is None: continue
+            nnoisy += 1
+            for how in ("yaml.dump/load", "simpleYAML/fromdict", "simpleYAML(a0=2.5)/fromdict"):
+                try:
+                    if how == "yaml.dump/load": c1 = rt(c0)
+                    else: c1 = crystal.Crystal.fromdict(yaml.load(c0.simpleYAML(2.5) if "a0" in how else c0.simpleYAML(), Loader=yaml.Loader))
+                    bad = deep_diff([float(c0.threshold), len(c0.G), c0.N, c0.dim, list(c0.chemistry), sorted(sorted(w) for w in c0.Wyckoff), c0.atomindices],
+                                    [float(c1.threshold), len(c1.G), c1.N, c1.dim, list(c1.chemistry), sorted(sorted(w) for w in c1.Wyckoff), c1.atomindices])
+                    if not np.allclose(c0.lattice, c1.lattice, rtol=1e-12, atol=0): bad.append("lattice")
+                    if any(not np.allclose(u, v2, rtol=0, atol=1e-12) for ul, vl in zip(c0.basis, c1.basis) for u, v2 in zip(ul, vl)): bad.append("basis")
+                except Exception as e:
+                    bad = [repr(e)]
+                ck.case(key=("yaml-noisy", nm, thr, how), nontrivial=True, kind="yaml:Crystal-noisy[%s]" % how.split("/")[0])
+                if bad:
+                    V("%s of a crystal with noisy positions and threshold=%g does not give the same crystal back: %s (|G| %d)" % (how, thr, bad[:5], len(c0.G)),
+                      {"crystal": nm, "threshold": thr, "how": how, "diff": bad, "basis": [[u.tolist() for u in b] for b in c0.basis], "lattice": c0.lattice.tolist()},
+                      key="c13-yaml-crystal-threshold")
+    ck.extra["noisy_threshold_crystals"] = nnoisy
+    if nnoisy == 0: raise RuntimeError("no noisy crystal with a non-default threshold could be built")
     codes = run_nat_cases(ck, "clflags", IMPORTS, "run_clflags", terms, chunk=200)
     for (origin, cl), c in zip(meta, codes):
         if c: V("Cluster._asdict / reloaded flags differ from the model (%s)" % {1: "dictionary keys", 2: "reloaded flags vs dictionary", 3: "reloaded flags vs original"}[c],
@@ -693,7 +759,7 @@ def many_member_families(ck, rng, V):
     for label, mk, nmax in cells:
         crys = mk()
         sh = gen.shells(crys, 0, nmax=nmax)
-        wants = [11, 21, 101] if (crys.dim == 2 or not ck.quick) else [11, 21]
+        wants = [11, 21, 101] if (crys.dim == 2 or not ck.quick) else [11]
         for want in wants:
             # a Bravais lattice with only the inversion: one jump type per neighbour distance
             jn, k = None, want - 1
